@@ -536,6 +536,15 @@ func (tt *TermTable) FArith(cfg FloatCfg, op string, a, b *Term) (*Term, error) 
 			if a == b {
 				return tt.Float(0, SReal), nil
 			}
+			// exact reals: (x + c) - x = c, (c + x) - x = c
+			if a.op == "+" && a.sort == SReal && len(a.args) == 2 {
+				if a.args[0] == b {
+					return a.args[1], nil
+				}
+				if a.args[1] == b {
+					return a.args[0], nil
+				}
+			}
 		case "*":
 			if a.IsConst() && a.f == 1 {
 				return b, nil
